@@ -2,7 +2,7 @@
 # usage: matrix.sh <out-file> <mutant> [check ids...] — apply a seeded change in a scratch worktree, run the checks against it
 # (MLPE_REPO points the harness at the worktree; /repo itself is not touched)
 OUT="$1"; M="$2"; shift 2
-WT=/tmp/mx_wt
+WT=${MX_WT:-/tmp/mx_wt}
 cd /verif || exit 2
 if [ ! -d $WT ]; then git -C /repo worktree add --detach $WT HEAD -f >/dev/null 2>&1; fi
 git -C $WT checkout -q -- . && git -C $WT clean -fdq
